@@ -43,6 +43,18 @@ PROPS = {
         "assumptions": ["the converter is well formed (Converter.wf: best lists hold units of their own quantity, every unit has a key, fractions configurations within new_approx's documented preconditions); decided for the generated bundled converter (C09_bundled_wf), for other converters it is C16's invariant",
                         "oracle values are finite with magnitude in [1e-9, 1e12] or zero (outside that range f64 overflow/underflow makes 'within floating-point tolerance' meaningless); non-finite and extreme values are compared with the model only"],
     },
+    "C10": {
+        "gen": [CONSTS, UNITS],
+        "trusted_base": COMMON_TB + [FLOAT_TB,
+            "translators/gen_units.py (units.toml -> Gen/Units.lean; compared row by row with Converter::bundled() by C09's check) and translators/gen_consts.py (modifier flag values)",
+            "the conversion model and its lemmas are those of C09 (Num/Convert.lean, Lemmas/Convert.lean: convertImpl_spec, fit_spec); the aisle model is that of C11 (Side/Aisle.lean: parse, lookup)",
+            "modelled, not verified: EnumMap (a function PhysQ -> Option), HashMap lookup/insert/get_mut (association list; its iteration order is an explicit parameter and every theorem quantifies over all orders), BTreeMap<String,_> (association list sorted by code point order, lookups by key equality), Vec push/extend, std::path::Path::file_stem (re-implemented for Unix paths, tied by the display_name correspondence cases), serde's image of the private fields of GroupedQuantity (used by the harness to read a group)",
+            "scaling outcomes (GroupedIngredient::outcome) are only logged by add_recipe and are not modelled"],
+        "assumptions": ["the converter satisfies the builder's invariants (Converter.Sound; decided for the generated bundled converter, C16 for others)",
+                        "totals are stated per class in base-unit amounts for classes whose units have no offset (LinearClass: every unknown unit, unit-less, and volume/mass/length/time of the bundled converter, decided); for temperature a sum depends on the unit it is made in (C10_offset_units_do_not_sum) and only C10_add_known_in_stored_unit and the fit/texts clauses apply",
+                        "recipes satisfy the reference-table invariant of C06 (RefsConsistent / RefsInRange: every referenced_from index is in range and points to a reference to this definition, every reference is registered once); without it the model returns the index panic as a value, which is compared with the code on hand-made tables",
+                        "oracle values are finite, non-negative, with magnitudes in [1e-3, 1e7]; sums are compared with relative tolerance 1e-9 of the summed magnitudes"],
+    },
     "C04": {
         "gen": [CONSTS, CHARTABLE],
         "trusted_base": COMMON_TB + SYNTAX_TB,
